@@ -1,6 +1,6 @@
 (** C04 — every query is either fully honoured or rejected with a diagnostic. *)
 From Coq Require Import List ZArith NArith Bool Lia.
-From AG Require Import Str F64 Value Json Expr Ops Pipeline Filter Grammar Grammar_proofs Spelling_proofs.
+From AG Require Import Str F64 Value Json Expr Ops Pipeline Filter Grammar Print Grammar_proofs Spelling_proofs QueryRoundtrip.
 From AG Require Generated.
 Import ListNotations.
 Open Scope string_scope.
@@ -45,6 +45,19 @@ Theorem C04_every_operator_in_effect : forall (o : lop) (l : list stage),
 Proof. exact check_lop_nonempty. Qed.
 Print Assumptions C04_every_operator_in_effect.
 (** (that every stage of the resulting list is then in effect, in order, is C03) *)
+
+(** *** every accepted query is honoured in full: a query printed from a filter list and a stage
+    list — in ANY spelling: whitespace runs, quote style, and/&&, or/||, !=/<>, minimal or redundant
+    parentheses — compiles to exactly that filter list and exactly those stages, in that order: nothing
+    is lost, added, reordered or misread.  [wf_stage] names what the printer covers (every operator and
+    option of the language except `parse regex`, durations printed in ns, explicit `as` names) *)
+Theorem C04_query_roundtrip : forall (o : popts) (fs : list filter) (stages : list stage) (t : str),
+  popts_ok o = true -> forallb wf_filter fs = true ->
+  forallb (wf_stage o) stages = true -> forallb stage_ok stages = true ->
+  pp_query o fs stages = Some t ->
+  accepts t = Some (FAnd fs, stages).
+Proof. exact query_roundtrip. Qed.
+Print Assumptions C04_query_roundtrip.
 
 (** *** static errors: ONE bad operator or ONE statically wrong stage anywhere rejects the whole query *)
 Theorem C04_bad_operator_rejects : forall (s : str) (q : lquery) (o : lop),
